@@ -133,9 +133,12 @@ pub fn byte_faults(bytes: &[u8], rng: &mut Rng, budget_random: usize, thin: usiz
             "-5".into(),
             "abc".into(),
             "".into(),
+            "４８０".into(),
+            "é1".into(),
+            "\r1".into(),
         ];
         for (ri, r) in reps.iter().enumerate() {
-            if thin > 1 && (ni * 10 + ri) % thin != 0 {
+            if thin > 1 && (ni * 13 + ri) % thin != 0 {
                 continue;
             }
             if r.as_bytes() == &bytes[*a..*b] {
@@ -248,11 +251,33 @@ pub fn byte_faults(bytes: &[u8], rng: &mut Rng, budget_random: usize, thin: usiz
             }
         }
     }
+    // 6c. carriage returns: CR after every section tag, CR in front of every header line, CRLF header
+    for (li, (a, b)) in header_lines(bytes).iter().enumerate() {
+        if thin > 1 && li % thin != 0 {
+            continue;
+        }
+        let line = &bytes[*a..*b];
+        if line.first() == Some(&b'[') {
+            out.push(Fault { class: "cr-after-tag", section: section_of(bytes, *a), descr: format!("CR LF inserted after {:?}", String::from_utf8_lossy(line)), bytes: splice(bytes, *b, *b, b"\r\n") });
+            out.push(Fault { class: "cr-after-tag", section: section_of(bytes, *a), descr: format!("CR inserted after {:?}", String::from_utf8_lossy(line)), bytes: splice(bytes, *b, *b, b"\r") });
+        } else {
+            out.push(Fault { class: "cr-before-line", section: section_of(bytes, *a), descr: format!("CR before line {}", li), bytes: splice(bytes, *a, *a, b"\r") });
+            // first byte of the line replaced by CR / by a multi-byte character
+            out.push(Fault { class: "line-first-byte", section: section_of(bytes, *a), descr: format!("first byte of line {} -> CR", li), bytes: splice(bytes, *a, *a + 1, b"\r") });
+            out.push(Fault { class: "line-first-byte", section: section_of(bytes, *a), descr: format!("first byte of line {} -> multi-byte", li), bytes: splice(bytes, *a, *a + 1, "あ".as_bytes()) });
+        }
+    }
+    if d <= bytes.len() {
+        let head = String::from_utf8_lossy(&bytes[..d]).replace('\n', "\r\n");
+        let mut v = head.into_bytes();
+        v.extend_from_slice(&bytes[d..]);
+        out.push(Fault { class: "crlf-header", section: "GLOBAL".into(), descr: "whole header with CRLF line ends".into(), bytes: v });
+    }
     // 9. non-UTF-8 / odd bytes in the header
     for _ in 0..(budget_random / 4).max(4) {
         let o = rng.below(d.max(1));
         let mut v = bytes.to_vec();
-        v[o] = *rng.pick(&[0xFFu8, 0x80, 0xC3, 0x00, b'"', b'[', b']', b':', b',', b'-', b'\n']);
+        v[o] = *rng.pick(&[0xFFu8, 0x80, 0xC3, 0x00, b'"', b'[', b']', b':', b',', b'-', b'\n', b'\r', b'\t', b' ']);
         out.push(Fault { class: "header-byte", section: section_of(bytes, o), descr: format!("header byte {} -> 0x{:02x}", o, v[o]), bytes: v });
     }
     // 8. byte substitutions at random offsets of the data part (text and binary alike)
